@@ -19,6 +19,8 @@ CHECKS = {
     "C04": hist("All format sequences over <= 3 generations x content kept/altered/restored are enumerated by TLC (scope fmt3, exhaustive), the original/verified/failed/new rules are invariants and an action property (first recorded digest never changes); every one of those behaviours is replayed on the real code and judged per step; nested and -sf variants by random walks."),
     "C06": hist("Append-only / gap-free numbering are an action property and invariants of the model; on real executions every create step is checked at byte level: earlier manifests identical, chain prefix preserved, exactly one new entry whose number, name and C4 match the new file, names NNNN_<folder>_<UTC>Z.mhl, also with several runs in one clock second."),
     "C08": hist("Routing to the deepest history, child root copied into the parent, reference sets and the set of histories that write are invariants of the model over all nested layouts in scope (root > d > d/e, sibling d2); replayed steps are judged with the same predicates plus byte-level reference digests and the audit-hook order child manifest < child chain < parent manifest."),
+    "C07": hist("MhlDirHash.tla states the compositional definition on Merkle terms over an injective abstract hash and TLC checks, for all trees of a small universe and all single mutations (edit, add, remove, rename of files and folders), the sensitivity relations of the statement and the equivalence with the snapshot signatures used by the core model; on the real code every recorded directory / root hash in all six formats must equal the independent reference evaluator over the non-ignored entries, recorded hashes of successive generations must be equal exactly when the model's signatures are, and verify -dh -co output is judged the same way."),
+    "C09": hist("verify -dh is modelled (formats computed, per-directory comparison with every recorded generation, per-format exit rule) and the identical=>0 / changed=>12 / no-internal-error predicates are invariants over sealed trees x single mutations x -n generations x nested histories with differing formats; every replayed verify -dh is judged against generations whose recorded snapshots are known. One open known finding (F4b)."),
     "C12": hist("Pattern accumulation (prefix-preserving, duplicate-free, parent patterns in nested generations) and exclusion (not recorded, not reported, not in directory hashes) are invariants of the model over base-name / glob / directory-name patterns, flat and nested; replayed steps are judged with 'matched' decided by pathspec on the root-relative path and directory hashes by the reference evaluator."),
     "C14": hist("Frame conditions: in the model every command leaves the tree untouched and only create/create -sf extend histories; on the real code every command of every campaign is bracketed by complete file-system snapshots (type, SHA-256, size, mtime_ns, mode) and an audit hook that sees every mutating call, and the delta / call list must be within what the model allows for that operation."),
     "C18": hist("The flatten merge rule (earliest non-failed digest per path and format, no directory records, process flatten) and verify -pl outcomes are invariants of the model over flat histories with changing formats, failed entries and partial -sf generations; replayed flatten / verify -pl steps are judged on the independently read packing list."),
